@@ -1,7 +1,347 @@
-(* C16 proofs (part 1): the regenerated tables are complete and use whole-string matching. *)
+(* C16 proofs (Labels): acceptance = membership in the documented domain, on every entry point, and
+   accepted objects re-decode.  Generic in the regenerated tables; the only facts taken from them are
+   (by computation) that every call site uses whole-string matching and that the field list has no
+   duplicates. *)
 From Coq Require Import List ZArith NArith Bool String Lia.
-From FIM Require Import Base.Str Base.Regex Base.RegexSound Model.Labels16Types Gen.UnicodeClasses Gen.LabelValidators Model.Labels16.
+From FIM Require Import Base.Str Base.Regex Base.RegexSound Model.Labels16Types Gen.UnicodeClasses Gen.LabelValidators
+  Model.Labels16 Model.Labels16Spec.
 Import ListNotations.
 
 Lemma lv_gen_ok_true : lv_gen_ok = true /\ uc_ok = true.
 Proof. split; reflexivity. Qed.
+
+(* every regex call site is a whole-string match *)
+Lemma modes_full :
+  label_scalar_mode = Full /\ label_list_mode = Full /\ tag_mode = Full /\
+  forallb (fun x => mmode_eqb (snd (snd x)) Full) name_rules = true.
+Proof. repeat split; vm_compute; reflexivity. Qed.
+
+Lemma scalar_full : label_scalar_mode = Full. Proof. apply modes_full. Qed.
+Lemma list_full : label_list_mode = Full. Proof. apply modes_full. Qed.
+Lemma tag_full : tag_mode = Full. Proof. apply modes_full. Qed.
+
+Lemma re_match_full r s : re_match Full r s = true <-> re_lang r s.
+Proof. apply py_fullmatch_spec. Qed.
+
+(* ---------------- generic list facts ---------------- *)
+
+Lemma first_err_none f l : first_err f l = None <-> Forall (fun x => f x = None) l.
+Proof.
+  induction l as [|x l IH]; simpl; split; intro H; auto.
+  - destruct (f x) eqn:E; [discriminate|]. constructor; [exact E | apply IH; exact H].
+  - inversion H; subst. rewrite H2. apply IH; assumption.
+Qed.
+
+Lemma forallb_Forall {A} (p : A -> bool) l : forallb p l = true <-> Forall (fun x => p x = true) l.
+Proof.
+  induction l as [|x l IH]; simpl; split; intro H; auto.
+  - apply andb_true_iff in H as [H1 H2]. constructor; [exact H1 | apply IH; exact H2].
+  - inversion H; subst. apply andb_true_iff; split; [assumption | apply IH; assumption].
+Qed.
+
+Lemma Forall_and {A} (P Q : A -> Prop) l : Forall (fun x => P x /\ Q x) l <-> Forall P l /\ Forall Q l.
+Proof.
+  induction l as [|x l IH]; split; intro H; auto.
+  - inversion H; subst. apply IH in H3. destruct H2, H3. split; constructor; assumption.
+  - destruct H as [H1 H2]. inversion H1; inversion H2; subst. constructor; [split; assumption | apply IH; split; assumption].
+Qed.
+
+Lemma Forall_iff {A} (P Q : A -> Prop) l : (forall x, P x <-> Q x) -> (Forall P l <-> Forall Q l).
+Proof. intro H. split; intro F; eapply Forall_impl; try exact F; intros a; apply H. Qed.
+
+(* ---------------- one value ---------------- *)
+
+
+Lemma range_check_spec rk s : range_check rk s = None <-> range_spec rk s.
+Proof.
+  destruct rk as [b | sep b0 b1 c]; cbn [range_check range_spec].
+  - destruct (py_int s) as [z|] eqn:E.
+    + destruct (in_bounds b z) eqn:B; split; intro H; try discriminate; eauto.
+      destruct H as (z' & Hz & Hb). inversion Hz; subst. congruence.
+    + split; [discriminate|]. intros (z & Hz & _). discriminate.
+  - destruct (split_on sep s) as [|p0 parts] eqn:Esp; cbn [hd nth_error].
+    + split.
+      * destruct (py_int []) eqn:E0; [|discriminate]. destruct (negb (in_bounds b0 z)); discriminate.
+      * intros (p0 & p1 & rest & x & y & Hs & _). discriminate.
+    + destruct (py_int p0) as [x|] eqn:E0.
+      2:{ split; [discriminate|]. intros (q0 & q1 & rest & x & y & Hs & H0 & _). inversion Hs; subst. congruence. }
+      destruct (in_bounds b0 x) eqn:B0; cbn [negb].
+      2:{ split; [discriminate|]. intros (q0 & q1 & rest & x' & y & Hs & H0 & _ & Hb & _). inversion Hs; subst. congruence. }
+      destruct parts as [|p1 rest]; cbn [nth_error].
+      { split; [discriminate|]. intros (q0 & q1 & rest & x' & y & Hs & _). discriminate. }
+      destruct (py_int p1) as [y|] eqn:E1.
+      2:{ split; [discriminate|]. intros (q0 & q1 & rest' & x' & y & Hs & _ & H1 & _). inversion Hs; subst. congruence. }
+      destruct (in_bounds b1 y) eqn:B1; cbn [negb].
+      2:{ split; [discriminate|]. intros (q0 & q1 & rest' & x' & y' & Hs & _ & H1 & _ & Hb & _). inversion Hs; subst. congruence. }
+      destruct (cmpb c x y) eqn:C.
+      * split; [|reflexivity]. intros _. exists p0, p1, rest, x, y. repeat split; assumption.
+      * split; [discriminate|]. intros (q0 & q1 & rest' & x' & y' & Hs & H0 & H1 & _ & _ & Hc). inversion Hs; subst. congruence.
+Qed.
+
+Definition regex_ok (k s : str) : Prop := forall r, lookup k label_validators = Some r -> re_lang r s.
+Definition range_ok (k s : str) : Prop := forall rk, lookup k label_lambdas = Some rk -> range_spec rk s.
+
+Lemma regex_phase_spec k v : is_strs v = true ->
+  (regex_phase k v = None <-> Forall (regex_ok k) (elems v)).
+Proof.
+  intro Hs. unfold regex_phase, regex_ok. destruct (lookup k label_validators) as [r|] eqn:E.
+  - destruct v as [s | l | |]; try discriminate; cbn [elems].
+    + rewrite scalar_full. destruct (re_match Full r s) eqn:M; split; intro H; try discriminate; try reflexivity.
+      * constructor; [|constructor]. intros r' Hr. inversion Hr; subst. apply re_match_full; exact M.
+      * inversion H; subst. specialize (H2 r eq_refl). apply re_match_full in H2. congruence.
+    + rewrite list_full. destruct (forallb (re_match Full r) l) eqn:M; split; intro H; try discriminate; try reflexivity.
+      * apply forallb_Forall in M. eapply Forall_impl; [|exact M]. intros s Hm r' Hr. inversion Hr; subst.
+        apply re_match_full; exact Hm.
+      * assert (forallb (re_match Full r) l = true); [|congruence].
+        apply forallb_Forall. eapply Forall_impl; [|exact H]. intros s Hm. apply re_match_full. apply Hm; reflexivity.
+  - split; [|reflexivity]. intros _. apply Forall_forall. intros s _ r Hr. discriminate.
+Qed.
+
+Lemma range_phase_spec k v : range_phase k v = None <-> Forall (range_ok k) (elems v).
+Proof.
+  unfold range_phase, range_ok. destruct (lookup k label_lambdas) as [rk|] eqn:E.
+  - rewrite first_err_none. apply Forall_iff. intro s. rewrite range_check_spec. split.
+    + intros H rk' Hr. inversion Hr; subst; exact H.
+    + intro H. apply H; reflexivity.
+  - split; [|reflexivity]. intros _. apply Forall_forall. intros s _ rk Hr. discriminate.
+Qed.
+
+Lemma in_domain_split k l : Forall (in_domain k) l <-> Forall (regex_ok k) l /\ Forall (range_ok k) l.
+Proof. unfold in_domain. apply Forall_and. Qed.
+
+(* the loop body accepts a value for a known field exactly when every element is in the documented
+   domain of that field; scalar and list alike *)
+Theorem accept_iff_domain fg st k v :
+  mem_str k label_fields = true -> is_strs v = true ->
+  (snd (set_one fg st (k, v)) = None <-> Forall (in_domain k) (elems v)).
+Proof.
+  intros Hk Hs. rewrite in_domain_split, <- regex_phase_spec, <- range_phase_spec by exact Hs.
+  unfold set_one. rewrite Hk. cbn [negb].
+  destruct v as [s | l | |]; try discriminate;
+    (destruct (regex_phase k _) eqn:R; [cbn [snd]; split; [discriminate | intros [? _]; discriminate]|];
+     destruct (range_phase k _) eqn:G; cbn [snd]; split; try discriminate; auto; intros [_ ?]; discriminate).
+Qed.
+
+Theorem accepted_is_stored fg st k v :
+  mem_str k label_fields = true -> snd (set_one fg st (k, v)) = None -> fst (set_one fg st (k, v)) = lset st k v.
+Proof.
+  intros Hk. unfold set_one. rewrite Hk. cbn [negb].
+  destruct v as [s | l | |]; cbn [snd fst]; try discriminate;
+    (destruct (regex_phase k _); [cbn [snd]; discriminate|]; destruct (range_phase k _); cbn [snd fst]; [discriminate | reflexivity]).
+Qed.
+
+Theorem rejected_unchanged fg st kv : snd (set_one fg st kv) <> None -> fst (set_one fg st kv) = st.
+Proof.
+  destruct kv as [k v]. unfold set_one.
+  destruct v as [s | l | |]; cbn [snd fst]; try reflexivity;
+    (destruct (negb (mem_str k label_fields)); [reflexivity|];
+     destruct (regex_phase k _); [reflexivity|]; destruct (range_phase k _); cbn [snd fst]; [reflexivity | intro H; exfalso; apply H; reflexivity]).
+Qed.
+
+(* an unknown keyword or a non-string value never changes the object *)
+Theorem unknown_or_untyped_unchanged fg st k v :
+  mem_str k label_fields = false \/ is_strs v = false -> fst (set_one fg st (k, v)) = st.
+Proof.
+  intros [H|H]; unfold set_one.
+  - rewrite H. destruct v; reflexivity.
+  - destruct v; try discriminate; reflexivity.
+Qed.
+
+(* ---------------- the invariant ---------------- *)
+
+Lemma mem_str_In k l : mem_str k l = true <-> In k l.
+Proof.
+  unfold mem_str. rewrite existsb_exists. split.
+  - intros (x & Hx & E). apply str_eqb_eq in E. subst. exact Hx.
+  - intro H. exists k. split; [exact H | apply str_eqb_refl].
+Qed.
+
+Lemma lset_keys st k v : map fst (lset st k v) = map fst st.
+Proof.
+  induction st as [|[k' v'] st IH]; simpl; [reflexivity|].
+  destruct (str_eqb k k'); simpl; [reflexivity | rewrite IH; reflexivity].
+Qed.
+
+Lemma lset_inv st k v : labels_inv st -> val_ok k (Some v) -> labels_inv (lset st k v).
+Proof.
+  unfold labels_inv. intros H Hv. induction st as [|[k' v'] st IH]; simpl; [constructor|].
+  inversion H; subst. destruct (str_eqb k k') eqn:E.
+  - apply str_eqb_eq in E; subst. constructor; [exact Hv | assumption].
+  - constructor; [assumption | apply IH; assumption].
+Qed.
+
+Lemma init_inv : labels_inv labels_init.
+Proof. unfold labels_inv, labels_init. apply Forall_forall. intros kv H. apply in_map_iff in H as (f & <- & _). exact I. Qed.
+
+Lemma set_one_inv fg st kv : labels_inv st -> labels_inv (fst (set_one fg st kv)).
+Proof.
+  intro H. destruct (snd (set_one fg st kv)) eqn:E.
+  - rewrite rejected_unchanged; [exact H | congruence].
+  - destruct kv as [k v]. destruct (mem_str k label_fields) eqn:Hk.
+    + destruct (is_strs v) eqn:Hs.
+      * rewrite accepted_is_stored by assumption. apply lset_inv; [exact H|]. split; [exact Hs|].
+        apply (accept_iff_domain fg st k v Hk Hs). exact E.
+      * rewrite unknown_or_untyped_unchanged; auto.
+    + rewrite unknown_or_untyped_unchanged; auto.
+Qed.
+
+(* _set_fields keeps the invariant whether or not it raises (fields set before a raise stay set) *)
+Theorem set_fields_inv fg kws : forall st, labels_inv st -> labels_inv (fst (set_fields fg st kws)).
+Proof.
+  induction kws as [|kv kws IH]; intros st H; cbn [set_fields]; [exact H|].
+  pose proof (set_one_inv fg st kv H) as H1. destruct (set_one fg st kv) as [st' [e|]]; cbn [fst] in *; [exact H1 | apply IH; exact H1].
+Qed.
+
+Lemma set_one_keys fg st kv : map fst (fst (set_one fg st kv)) = map fst st.
+Proof.
+  destruct kv as [k v]. unfold set_one.
+  destruct v; cbn [fst]; try reflexivity;
+    (destruct (negb (mem_str k label_fields)); [reflexivity|]; destruct (regex_phase k _); [reflexivity|];
+     destruct (range_phase k _); cbn [fst]; [reflexivity | apply lset_keys]).
+Qed.
+
+Lemma set_fields_keys fg kws : forall st, map fst (fst (set_fields fg st kws)) = map fst st.
+Proof.
+  induction kws as [|kv kws IH]; intro st; cbn [set_fields]; [reflexivity|].
+  pose proof (set_one_keys fg st kv) as H1. destruct (set_one fg st kv) as [st' [e|]]; cbn [fst] in *; [exact H1 | rewrite IH; exact H1].
+Qed.
+
+Lemma init_wf : labels_wf labels_init.
+Proof. unfold labels_wf, labels_init. rewrite map_map. exact (map_id label_fields). Qed.
+
+Lemma as_result_ok p st : as_result p = Ok st -> fst p = st.
+Proof. destruct p as [s [e|]]; simpl; intro H; inversion H; reflexivity. Qed.
+
+Theorem ctor_inv kws st : labels_ctor kws = Ok st -> labels_inv st /\ labels_wf st.
+Proof.
+  unfold labels_ctor. intro H. apply as_result_ok in H. subst. split.
+  - apply set_fields_inv, init_inv.
+  - unfold labels_wf. rewrite set_fields_keys. apply init_wf.
+Qed.
+
+Theorem update_inv lab kws st : labels_inv lab -> labels_wf lab -> labels_update lab kws = Ok st -> labels_inv st /\ labels_wf st.
+Proof.
+  unfold labels_update. intros Hi Hw H. apply as_result_ok in H. subst. split.
+  - apply set_fields_inv, Hi.
+  - unfold labels_wf. rewrite set_fields_keys. exact Hw.
+Qed.
+
+Theorem from_dict_inv d st : labels_from_dict d = Ok st -> labels_inv st /\ labels_wf st.
+Proof.
+  unfold labels_from_dict. intro H. apply as_result_ok in H. subst. split.
+  - apply set_fields_inv, init_inv.
+  - unfold labels_wf. rewrite set_fields_keys. apply init_wf.
+Qed.
+
+Theorem every_entry_point e st : run_entry e = Ok st -> labels_inv st /\ labels_wf st.
+Proof.
+  destruct e as [kws | base kws | d]; cbn [run_entry].
+  - apply ctor_inv.
+  - destruct (labels_ctor base) as [lab|] eqn:E; [|discriminate]. apply ctor_inv in E as [Hi Hw]. apply update_inv; assumption.
+  - apply from_dict_inv.
+Qed.
+
+(* objects reachable through any sequence of constructor / update / from_json calls *)
+Inductive reachable : lobj -> Prop :=
+| R_ctor kws st : labels_ctor kws = Ok st -> reachable st
+| R_from_json d st : labels_from_dict d = Ok st -> reachable st
+| R_update lab kws st : reachable lab -> labels_update lab kws = Ok st -> reachable st.
+
+Theorem reachable_inv st : reachable st -> labels_inv st /\ labels_wf st.
+Proof.
+  induction 1 as [kws st H | d st H | lab kws st Hl [Hi Hw] H].
+  - apply ctor_inv in H; exact H.
+  - apply from_dict_inv in H; exact H.
+  - eapply update_inv; eassumption.
+Qed.
+
+(* what "stored" means for a reader of the object *)
+Lemma lookup_In {V} k (t : list (str * V)) v : lookup k t = Some v -> In (k, v) t.
+Proof.
+  induction t as [|[k' v'] t IH]; simpl; [discriminate|].
+  destruct (str_eqb k k') eqn:E; intro H.
+  - apply str_eqb_eq in E. inversion H; subst. left; reflexivity.
+  - right; apply IH; exact H.
+Qed.
+
+Theorem stored_values_in_domain st k v : labels_inv st -> lget st k = Some v -> is_strs v = true /\ Forall (in_domain k) (elems v).
+Proof.
+  unfold lget, labels_inv. intros Hi H. destruct (lookup k st) as [[v'|]|] eqn:E; try discriminate. inversion H; subst.
+  apply lookup_In in E. rewrite Forall_forall in Hi. apply (Hi _ E).
+Qed.
+
+(* ---------------- accepted objects re-decode ---------------- *)
+
+Definition blank (l : lobj) : lobj := map (fun kv => (fst kv, @None lval)) l.
+
+Lemma lset_app_notin done k v rest ov :
+  ~ In k (map fst done) -> lset (done ++ (k, ov) :: rest) k v = done ++ (k, Some v) :: rest.
+Proof.
+  induction done as [|[k' v'] done IH]; simpl; intro H.
+  - rewrite str_eqb_refl. reflexivity.
+  - destruct (str_eqb k k') eqn:E.
+    + apply str_eqb_eq in E. subst. exfalso. apply H. left; reflexivity.
+    + rewrite IH; [reflexivity | tauto].
+Qed.
+
+Lemma recode_gen : forall todo done,
+  NoDup (map fst done ++ map fst todo) -> labels_inv todo ->
+  (forall k, In k (map fst todo) -> mem_str k label_fields = true) ->
+  set_fields true (done ++ blank todo) (labels_encode todo) = (done ++ todo, None).
+Proof.
+  induction todo as [|[k ov] todo IH]; intros done Hnd Hi Hk.
+  - simpl. rewrite app_nil_r. reflexivity.
+  - inversion Hi as [|? ? Hv Hi']; subst. cbn [fst snd] in Hv.
+    assert (Hnd' : NoDup (map fst (done ++ [(k, ov)]) ++ map fst todo)).
+    { rewrite map_app, <- app_assoc. exact Hnd. }
+    assert (Hk' : forall k0, In k0 (map fst todo) -> mem_str k0 label_fields = true).
+    { intros k0 H0. apply Hk. right; exact H0. }
+    destruct ov as [v|].
+    + destruct Hv as [Hs Hd].
+      change (labels_encode ((k, Some v) :: todo)) with ((k, v) :: labels_encode todo).
+      change (blank ((k, Some v) :: todo)) with ((k, @None lval) :: blank todo).
+      cbn [set_fields].
+      assert (Hkf : mem_str k label_fields = true) by (apply Hk; left; reflexivity).
+      pose proof (proj2 (accept_iff_domain true (done ++ (k, None) :: blank todo) k v Hkf Hs) Hd) as Hacc.
+      pose proof (accepted_is_stored true (done ++ (k, None) :: blank todo) k v Hkf Hacc) as Hst.
+      destruct (set_one true (done ++ (k, None) :: blank todo) (k, v)) as [st' oe]. cbn [fst snd] in *. subst oe st'.
+      rewrite lset_app_notin.
+      * specialize (IH (done ++ [(k, Some v)]) Hnd' Hi' Hk'). rewrite <- !app_assoc in IH. exact IH.
+      * intro Hin. apply NoDup_remove_2 in Hnd. apply Hnd. apply in_or_app. left; exact Hin.
+    + change (labels_encode ((k, None) :: todo)) with (labels_encode todo).
+      change (blank ((k, None) :: todo)) with ((k, @None lval) :: blank todo).
+      specialize (IH (done ++ [(k, None)]) Hnd' Hi' Hk'). rewrite <- !app_assoc in IH. exact IH.
+Qed.
+
+Fixpoint nodup_strb (l : list str) : bool :=
+  match l with [] => true | x :: r => negb (mem_str x r) && nodup_strb r end.
+
+Lemma nodup_strb_NoDup l : nodup_strb l = true -> NoDup l.
+Proof.
+  induction l as [|x l IH]; simpl; intro H; constructor; apply andb_true_iff in H as [H1 H2].
+  - intro Hin. apply mem_str_In in Hin. rewrite Hin in H1. discriminate.
+  - apply IH; exact H2.
+Qed.
+
+Lemma label_fields_nodup : NoDup label_fields.
+Proof. apply nodup_strb_NoDup. vm_compute. reflexivity. Qed.
+
+(* whatever was accepted is accepted again after to_dict/to_json -> from_json, and gives the same object *)
+Theorem accepted_recodes st : labels_inv st -> labels_wf st -> labels_recode st = Ok st.
+Proof.
+  intros Hi Hw. unfold labels_recode, labels_from_dict.
+  assert (Hb : labels_init = [] ++ blank st).
+  { unfold labels_init, blank. rewrite <- Hw, map_map. reflexivity. }
+  rewrite Hb, recode_gen; [reflexivity | | exact Hi |].
+  - simpl. rewrite Hw. apply label_fields_nodup.
+  - intros k Hk. rewrite Hw in Hk. apply mem_str_In; exact Hk.
+Qed.
+
+Corollary entry_point_recodes e st : run_entry e = Ok st -> labels_recode st = Ok st.
+Proof. intro H. apply every_entry_point in H as [Hi Hw]. apply accepted_recodes; assumption. Qed.
+
+(* documented boundary values *)
+Lemma boundaries_hold :
+  forallb (fun x => Bool.eqb (scalar_accepted (fst (fst x)) (snd (fst x))) (snd x) &&
+                    Bool.eqb (list_accepted (fst (fst x)) (snd (fst x))) (snd x)) boundary_table = true.
+Proof. vm_compute. reflexivity. Qed.
